@@ -142,6 +142,22 @@ def run(ck, F, E):
                         if o.get("k") == "const" and "int" in o:
                             consts.append((st["rv"]["op"], o["int"]))
         ok = "is_ascii_whitespace" in calls and ("Ne", 10) in consts
+        if not ok:
+            # spelled out as a set of bytes (`matches!(byte, b'\t' | b'\x0C' | b'\r' | b' ')`): it must be exactly the ASCII
+            # whitespace characters without the line feed
+            accepted = set()
+            for b in sorted(iw.reachable()):
+                t = iw.term(b)
+                if t["k"] == "switch" and t.get("dty") == "u8":
+                    for v, tgt in t["targets"]:
+                        # the arm assigns `true` to the result
+                        if any(st["k"] == "assign" and st["place"]["local"] == 0 and st["rv"]["k"] == "use" and st["rv"]["op"].get("int") == 1
+                               for st in iw.blocks[tgt]["stmts"]) or any(
+                                st["k"] == "assign" and st["rv"]["k"] == "use" and st["rv"]["op"].get("int") == 1 for st in iw.blocks[tgt]["stmts"]):
+                            accepted.add(int(v))
+            if accepted == {9, 12, 13, 32}:
+                ok = True
+                calls = calls + ["(byte set %s)" % sorted(accepted)]
         ck.require(ok, "C12:FILTER:definition", "cruncher filter",
                    "is_basic_whitespace = is_ascii_whitespace() && != '\\n' (covers space and tab)",
                    "is_basic_whitespace is no longer `is_ascii_whitespace() && byte != b'\\n'` (calls %s, tests %s)"
